@@ -487,7 +487,7 @@ def check_tagger_algebra(prog: Program, rep: Report) -> None:
     t_v = prog.class_named("CellVetoTagger")
     t_c = prog.class_named("CellBoundaryTagger")
     m = "yield_identifiers_send_event_time"
-    fb, fe, fs, fv, fc = (None if t.methods.get(m) is None else canon(prog, t, t.methods[m], helpers=False) for t in (t_b, t_e, t_s, t_v, t_c))
+    fb, fe, fs, fv, fc = (None if t.methods.get(m) is None else canon(prog, t, t.methods[m]) for t in (t_b, t_e, t_s, t_v, t_c))
     for t, f in ((t_b, fb), (t_e, fe), (t_s, fs), (t_v, fv), (t_c, fc)):
         if f is None:
             raise AnalysisError(f"{t.name}.{m} not found")
@@ -541,21 +541,28 @@ def check_tagger_algebra(prog: Program, rep: Report) -> None:
         loops = [n for n in ast.walk(f) if isinstance(n, ast.For) and norm(n.iter).endswith("yield_cells()")]
         for lp in loops:
             var = norm(lp.target)
-            first = lp.body[0] if lp.body else None
-            near = first.test.comparators[0] if isinstance(first, ast.If) and isinstance(first.test, ast.Compare) else None
-            ok = isinstance(first, ast.If) and len(lp.body) == 1 and isinstance(first.test, ast.Compare) \
-                and isinstance(first.test.ops[0], ast.NotIn) and norm(first.test.left) == var \
-                and isinstance(near, ast.Call) and norm(near.func).endswith("nearby_cells") and len(near.args) == 1 \
-                and norm(near.args[0]).endswith("zero_cell")
-            rep.ob("R10.2-far-field-domain", ok, Loc(c.file, lp.lineno, f"{cname}.{fname}"), first.test if isinstance(first, ast.If) else lp.iter,
+            # everything the loop files (stores into attributes / tables, items appended) happens exactly for the cells that are not
+            # nearby cells of the zero cell: the path conditions of every such statement are {var not in <cells>.nearby_cells(<zero cell>)}
+            payload = [n for n in ast.walk(lp) if (isinstance(n, ast.Assign) and any(isinstance(t, ast.Subscript) or self_attr(t) for t in n.targets))
+                       or (isinstance(n, ast.Call) and isinstance(n.func, ast.Attribute) and n.func.attr == "append")]
+
+            def far_only(conds: List[str]) -> bool:
+                hits = []
+                for c_ in conds:
+                    sp = split_atom(c_)
+                    if sp is not None and sp[0] == var and sp[1] == "not in" and ".nearby_cells(" in sp[2] and sp[2].rstrip(")").endswith("zero_cell"):
+                        hits.append(c_)
+                return len(hits) == 1 and len(conds) == 1
+            exits: List[str] = []
+            ok = bool(payload) and all(far_only(path_conditions(lp.body, n, exits) or []) for n in payload) and not exits
+            first_if = next((n for n in ast.walk(lp) if isinstance(n, ast.If)), None)
+            rep.ob("R10.2-far-field-domain", ok, Loc(c.file, lp.lineno, f"{cname}.{fname}"), first_if.test if first_if is not None else lp.iter,
                    "the far-field tables (cell-veto walker, cell bounds) must range over exactly the cells that are not nearby "
                    "cells of the zero cell -- the relative complement of what the excluded-cells tagger treats explicitly")
-            keys = [n for n in ast.walk(lp) if isinstance(n, ast.Assign) and "relative_cell" in norm(n.value)]
-            def rel(e: ast.AST) -> bool:
-                cs = [c for c in ast.walk(e) if isinstance(c, ast.Call) and norm(c.func).endswith("relative_cell")]
-                return len(cs) == 1 and len(cs[0].args) == 2 and norm(cs[0].args[0]) == var and norm(cs[0].args[1]).endswith("zero_cell")
-            rep.ob("R10.2-keyed-by-relative-cell", bool(keys) and all(rel(k.value) for k in keys),
-                   Loc(c.file, lp.lineno, f"{cname}.{fname}"), keys[0] if keys else "key", "bounds must be keyed by the cell relative to the zero cell")
+            rels = [c_ for c_ in ast.walk(lp) if isinstance(c_, ast.Call) and norm(c_.func).endswith("relative_cell")]
+            rep.ob("R10.2-keyed-by-relative-cell", bool(rels) and all(len(c_.args) == 2 and norm(c_.args[0]) == var and norm(c_.args[1]).endswith("zero_cell")
+                                                                    for c_ in rels),
+                   Loc(c.file, lp.lineno, f"{cname}.{fname}"), rels[0] if rels else "key", "bounds must be keyed by the cell relative to the zero cell")
     # target lookup
     med = prog.class_named("Mediator")
     ga = med.methods.get("get_arguments_cell_veto_event_handler")
